@@ -1,6 +1,7 @@
 package rules
 
 import (
+	"go/constant"
 	"go/token"
 	"go/types"
 	"sort"
@@ -791,8 +792,9 @@ func runTotalRecurse(p *core.Program, r *core.Report, cmpFn, cmpTotal *ssa.Funct
 
 func runC10(p *core.Program, r *core.Report) {
 	order := builtinFn(p, "eval:order", pkgEval, "order")
-	less := p.Method(pkgEval, "slice", "Less")
-	swap := p.Method(pkgEval, "slice", "Swap")
+	sorter := orderSorterName(p, order)
+	less := p.Method(pkgEval, sorter, "Less")
+	swap := p.Method(pkgEval, sorter, "Swap")
 	if !r.Anchor("STABLE", "eval.order, (*eval.slice).Less, (*eval.slice).Swap", order != nil && less != nil && swap != nil) {
 		return
 	}
@@ -845,7 +847,7 @@ func runC10(p *core.Program, r *core.Report) {
 			return false
 		}
 		n, f := core.FieldName(fa)
-		return n != nil && n.Obj().Name() == "slice" && f == "err"
+		return n != nil && n.Obj().Name() == sorter && (f == "err" || fa.Type().(*types.Pointer).Elem().String() == "error")
 	}
 	nput := 0
 	core.Instrs(order, func(ins ssa.Instruction) {
@@ -958,6 +960,10 @@ func runC10(p *core.Program, r *core.Report) {
 			}
 			construct := "(*eval.slice).Less failing exit latches the error"
 			switch {
+			case orderingSaysLess(p, less, blk):
+				// `case vals.CmpLess: return true`: an answer, not a failure
+				nconst--
+				r.OK("LATCH", "(*eval.slice).Less returns true for a value the comparison called less", p.InsPos(ins), "the return is on the equal edge of a test of the ordering against a constant other than CmpUncomparable")
 			case sets:
 				r.OK("LATCH", construct+" #"+itoa(nconst), p.InsPos(ins), "s.err is set in the block that returns true")
 			case early:
@@ -1101,4 +1107,91 @@ func runC11(p *core.Program, r *core.Report) {
 	e.run(r, "EXACT-ZERO", func(s sink) bool {
 		return strings.HasPrefix(s.kind, "lib:(*math/big.") || s.kind == "lib:math/big.NewRat" || s.kind == "intdiv"
 	})
+}
+
+// orderSorterName: the name of the sort.Interface implementation that order
+// hands to the sort package (today "slice"), found from the call rather than
+// by name so that renaming the type does not lose the anchor.
+func orderSorterName(p *core.Program, order *ssa.Function) string {
+	name := "slice"
+	if order == nil {
+		return name
+	}
+	seen := map[*ssa.Function]bool{}
+	var scan func(fn *ssa.Function, depth int)
+	scan = func(fn *ssa.Function, depth int) {
+		if fn == nil || seen[fn] || fn.Blocks == nil || depth > 2 {
+			return
+		}
+		seen[fn] = true
+		core.Instrs(fn, func(ins ssa.Instruction) {
+			c, ok := ins.(*ssa.Call)
+			if !ok {
+				return
+			}
+			callee := c.Call.StaticCallee()
+			if callee == nil {
+				return
+			}
+			if core.PkgPathOf(callee) == "sort" && len(c.Call.Args) == 1 {
+				if mi, ok := c.Call.Args[0].(*ssa.MakeInterface); ok {
+					t := mi.X.Type()
+					if ptr, ok := t.(*types.Pointer); ok {
+						t = ptr.Elem()
+					}
+					if n, ok := t.(*types.Named); ok && n.Obj().Pkg() != nil && n.Obj().Pkg().Path() == pkgEval {
+						name = n.Obj().Name()
+					}
+				}
+			}
+			if core.PkgPathOf(callee) == pkgEval {
+				scan(callee, depth+1)
+			}
+		})
+	}
+	scan(order, 0)
+	return name
+}
+
+// orderingSaysLess: blk is entered over the equal edge of a comparison of a
+// vals.Cmp / vals.CmpTotal result with an Ordering constant other than
+// CmpUncomparable.
+func orderingSaysLess(p *core.Program, fn *ssa.Function, blk *ssa.BasicBlock) bool {
+	var unc int64 = -999
+	if pk := p.ByPath[pkgVals]; pk != nil && pk.Types != nil {
+		if c, ok := pk.Types.Scope().Lookup("CmpUncomparable").(*types.Const); ok {
+			if v, exact := constant.Int64Val(c.Val()); exact {
+				unc = v
+			}
+		}
+	}
+	if unc == -999 {
+		return false
+	}
+	for _, b := range fn.Blocks {
+		if len(b.Instrs) == 0 {
+			continue
+		}
+		iff, ok := b.Instrs[len(b.Instrs)-1].(*ssa.If)
+		if !ok {
+			continue
+		}
+		cmp, ok := iff.Cond.(*ssa.BinOp)
+		if !ok || cmp.Op != token.EQL {
+			continue
+		}
+		call, ok := cmp.X.(*ssa.Call)
+		k, isC := constInt(cmp.Y)
+		if !ok || !isC {
+			continue
+		}
+		callee := call.Call.StaticCallee()
+		if callee == nil || core.PkgPathOf(callee) != pkgVals || (callee.Name() != "Cmp" && callee.Name() != "CmpTotal") {
+			continue
+		}
+		if k != unc && core.EdgeTo(b, blk) == 0 {
+			return true
+		}
+	}
+	return false
 }
